@@ -66,12 +66,40 @@ CHECKS = {
             "exactly for from_ascii; Name::parse is not given interior underscores (UTS 46 STD3 refuses them by design); "
             "order laws are exhaustive on the stated universe only.",
             "DESIGN.md section 4 C04", "names"),
+    "C10": ("model_checking",
+            "TLA+ oracle Answer(zone, qname, qtype) from RFC 1034 4.3.2 / 2308 / 4592 / 8482 plus a top-down machine model-checked "
+            "against it; TLC-enumerated zones with expectation tables replayed as bytes through the real Catalog + "
+            "InMemoryZoneHandler (unsigned, NSEC, NSEC3); seeded random zones judged by a TLA+ trace monitor",
+            "Exhaustive over zones of <= 2 nodes (11-owner universe; <= 3 nodes over 6 owners in thorough) x ~18 qnames x 9 "
+            "qtypes x 3 signing modes: the RFC algorithm as a machine is model-checked against the C10_* invariants and the "
+            "bottom-up oracle; every enumerated (zone, query) is sent as wire bytes through Request::from_bytes / "
+            "Catalog::handle_request and the response must conform to one of the alternatives the oracle allows; random larger "
+            "zones (long CNAME chains, loops, nested cuts, wildcards) are judged by Trace_AuthServer. Listed deviations are "
+            "attributed only when the response is exactly what the switchable AuthAsIs rule predicts.",
+            "InMemory store only; the DNSSEC stage checks presence of RRSIGs and NSEC/NSEC3 denial, not what the proofs prove "
+            "(C08/C09); MinChase = 8 is an assumed CNAME chase bound; order inside RRsets, additional section and TTLs free.",
+            "DESIGN.md section 4 C10", "auth"),
+    "C11": ("model_checking",
+            "TLA+ machine of the request pipeline (gate, ACL, EDNS version, longest-suffix dispatch, handler chain) model-checked "
+            "by TLC; TLC-enumerated request attributes x catalogs x ACLs replayed as bytes through hook H4 over UDP and TCP, each "
+            "followed by a probe query; mutated/random request bytes judged by a TLA+ trace monitor with an independent byte reader",
+            "Exhaustive model check over all request attributes x catalogs of nested/sibling/root zones x handler chains x "
+            "allow/deny lists; three exhaustive case families replayed through ServerContext::handle_raw_request (number of "
+            "replies, rcode class, id/question echo, answering zone), every hostile message followed by a known-good probe "
+            "(survival); tens of thousands of mutated and random messages judged by Trace_FrontDoor.",
+            "Driven in-process through hook H4 (no sockets); TLS/HTTPS/QUIC front ends share handle_request and are not driven "
+            "separately; precedence among several applicable error codes follows the code where the property leaves it open.",
+            "DESIGN.md section 4 C11", "front"),
 }
 
 NOT_YET = {
 }
 
 ENGINES = [
+    {"name": "auth", "path": "spec/AuthServer.tla", "serves_properties": ["C10"],
+     "kind_free_text": "TLA+ spec (AuthNames, AuthAnswer, AuthAsIs, AuthZones, AuthServer, MC_/Gen_/Trace_AuthServer) + harness/src/bin/drive_auth.rs"},
+    {"name": "front", "path": "spec/FrontDoor.tla", "serves_properties": ["C11"],
+     "kind_free_text": "TLA+ spec (FrontDoorReq, FrontDoor, MC_/Gen_/Trace_FrontDoor) + harness/src/bin/drive_front.rs"},
     {"name": "names", "path": "spec/NameOps.tla", "serves_properties": ["C04"],
      "kind_free_text": "TLA+ spec (DnsNames, NameLaws, NameOps, Gen_NamePairs, Gen_NameOps, Trace_Names) + harness/src/bin/drive_names.rs"},
     {"name": "tsig", "path": "spec/Tsig.tla", "serves_properties": ["C13"],
